@@ -612,7 +612,13 @@ func (t *Int32Tree) NewScanner(key int32) *Int32Cursor {
 		n = child
 	}
 	ln := n.(*int32LeafNode)
-	return newInt32Cursor(ln, int32SearchGreaterThanOrEqualTo(key, ln.runts))
+	index := int32SearchGreaterThanOrEqualTo(key, ln.runts)
+	if index < len(ln.runts) && ln.runts[index] < key {
+		// The search never returns len(ln.runts); when even the final key of
+		// this leaf is smaller than key, start after it.
+		index++
+	}
+	return newInt32Cursor(ln, index)
 }
 
 // Int32Cursor is used to enumerate key-value pairs from the tree in
